@@ -77,7 +77,7 @@ def plan_c09(tier):
     if tier == "thorough":
         ws = sharded("bufmc", "c09", "thorough", 32, ["rel", "dbg"], ["even", "odd"])
     else:
-        ws = sharded("bufmc", "c09", "quick", 16, ["rel"], ["even"])
+        ws = sharded("bufmc", "c09", "quick", 16, ["rel"], ["even"]) + sharded("bufmc", "c09", "mini", 8, ["dbg"], ["odd"])
     return dict(
         workers=ws, level="model_checking", distinct_is_max=False,
         rule="explicit-state exploration of the real crate: every adapter tree (leaves: &[u8], Bytes x5 representations, BytesMut x3, io::Cursor incl. position past the end, "
@@ -85,7 +85,7 @@ def plan_c09(tier):
              "distribution of the payload over the leaves incl. empty leaves) x every sequence of consuming operations (advance/copy_to_slice/try_copy_to_slice/copy_to_bytes with k in {0,1,2,rem-1,rem,rem+1}, get_u8, "
              "set_limit, into_iter) up to the depth bound; at every reached state remaining/chunk/chunks_vectored(dst 0,1,2,3,17) and the structural model are checked. "
              "state = (tree, op sequence); distinct_nontrivial = distinct trees",
-        bounds="quick: payload<=4 (chains<=3), <=2 leaves, <=2 unary adapters, op depth 2; thorough: payload<=6, <=3 leaves, <=3 unary adapters, op depth 3 (2 for chains), both parities and profiles",
+        bounds="quick: payload<=4 (chains<=3), <=2 leaves, <=2 unary adapters, op depth 2, release profile (+ a reduced set in the debug-assertions profile, odd parity); thorough: payload<=6, <=3 leaves, <=3 unary adapters, op depth 3 (2 for chains), both parities and profiles",
         assumptions=["a flat Vec<u8> denotation of the tree is the reference", "payload sizes and adapter depth are bounded as stated"],
     )
 
@@ -109,7 +109,7 @@ def plan_c11(tier):
     if tier == "thorough":
         ws = sharded("bufmc", "c11", "thorough", 32, ["rel", "dbg"], ["even", "odd"])
     else:
-        ws = sharded("bufmc", "c11", "thorough", 32, ["rel"], ["even"])
+        ws = sharded("bufmc", "c11", "thorough", 32, ["rel"], ["even"]) + sharded("bufmc", "c11", "quick", 8, ["dbg"], ["odd"])
     return dict(
         workers=ws, level="model_checking", distinct_is_max=False,
         rule="explicit-state exploration of the real crate: every BufMut target tree (Vec and BytesMut in 3 representations at several len/spare levels, &mut [u8] and &mut [MaybeUninit<u8>] of sizes 0..=10,16,17,20 carved "
@@ -117,7 +117,7 @@ def plan_c11(tier):
              "put table (32 fixed putters x 25 msb/lsb edge values, 6 variable putters x nbytes 0..=9) from the initial state and after a positioning write, put_slice/put_bytes/put(Buf in 6 source shapes) with sizes "
              "{0,1,2,3,first-1,first,first+1,rem,rem+1}, up to depth 3; after every write contents, remaining_mut, chunk_mut and the arena guard bytes are compared with the model, and each typed value is read back with the matching getter. "
              "distinct_nontrivial = distinct target trees",
-        bounds="depth 3 for sized writes, typed writes at depth 1-2; quick = rel profile, even parity; thorough = rel+dbg x even+odd",
+        bounds="depth 3 for sized writes, typed writes at depth 1-2; quick = rel profile, even parity (+ the reduced target set in the debug-assertions profile, odd parity); thorough = rel+dbg x even+odd",
         assumptions=["independent encoder in the harness is the reference", "fixed-size targets live in a harness arena with 0xEE guards; heap targets are guarded by the oracle allocator's canaries"],
     )
 
@@ -126,7 +126,7 @@ def plan_c12(tier):
     if tier == "thorough":
         ws = sharded("bufmc", "c12r", "thorough", 32, ["rel", "dbg"], ["even"]) + sharded("bufmc", "c12w", "thorough", 16, ["rel", "dbg"], ["even"])
     else:
-        ws = sharded("bufmc", "c12r", "quick", 16, ["rel"], ["even"]) + sharded("bufmc", "c12w", "thorough", 16, ["rel"], ["even"])
+        ws = sharded("bufmc", "c12r", "quick", 16, ["rel"], ["even"]) + sharded("bufmc", "c12w", "thorough", 16, ["rel"], ["even"]) + sharded("bufmc", "c12r", "mini", 8, ["dbg"], ["odd"]) + sharded("bufmc", "c12w", "quick", 4, ["dbg"], ["odd"])
     return dict(
         workers=ws, level="model_checking", distinct_is_max=False,
         rule="read side: the adapter trees of C09 with Reader roots (io::Read::read with every dst size, BufRead::fill_buf/consume) and Take roots with set_limit in mid-stream; write side: the target trees of C11 with "
@@ -137,12 +137,12 @@ def plan_c12(tier):
     )
 
 
-HMC_ROOTS = ["0,0", "1,4", "2,4", "2,1", "3,4", "3,1", "4,4", "5,4", "6,4", "7,0", "8,0", "9,4", "9,1", "10,4", "10,1", "11,4", "12,4", "13,4", "14,4", "15,126", "15,64", "16,127", "17,4", "18,4", "11,1024"]
-ROOT_WEIGHT = {"11,1024": 30, "14,4": 28, "15,126": 25, "15,64": 25, "9,4": 24, "18,4": 22, "12,4": 18, "11,4": 17, "10,4": 17, "9,1": 14, "10,1": 12, "8,0": 8, "17,4": 8, "16,127": 8, "3,4": 7, "2,4": 5, "4,4": 5, "6,4": 5, "5,4": 4, "13,4": 1, "0,0": 1, "1,4": 2, "7,0": 3, "2,1": 3, "3,1": 4}
-QUICK_SHALLOW = {"11,1024": 3, "4,4": 3, "6,4": 3, "11,4": 3, "12,4": 3, "15,64": 3}
+HMC_ROOTS = ["0,0", "1,4", "2,4", "2,1", "3,4", "3,1", "4,4", "5,4", "6,4", "7,0", "8,0", "9,4", "9,1", "10,4", "10,1", "11,4", "12,4", "13,4", "14,4", "15,126", "15,64", "16,127", "17,4", "18,4", "11,1024", "19,4"]
+ROOT_WEIGHT = {"19,4": 28, "11,1024": 30, "14,4": 28, "15,126": 25, "15,64": 25, "9,4": 24, "18,4": 22, "12,4": 18, "11,4": 17, "10,4": 17, "9,1": 14, "10,1": 12, "8,0": 8, "17,4": 8, "16,127": 8, "3,4": 7, "2,4": 5, "4,4": 5, "6,4": 5, "5,4": 4, "13,4": 1, "0,0": 1, "1,4": 2, "7,0": 3, "2,1": 3, "3,1": 4}
+QUICK_SHALLOW = {"19,4": 3, "11,1024": 3, "4,4": 3, "6,4": 3, "11,4": 3, "12,4": 3, "15,64": 3}
 HMC_RULE = ("explicit-state search by replay over the real crate under the oracle allocator: states = canonical keys of the concrete handle pool (representation, offsets, lengths, capacities, "
             "reference counts, control blocks, allocation sizes, lineage; modulo address renaming and slot permutation), transitions = every enabled operation of the alphabet with every boundary argument "
-            "(0,1,len-1,len,cap-1,cap,alloc-len, +1 variants, usize::MAX / isize::MAX class) on every live handle, from each of 25 roots (all representations, payload 0/1/4; uniquely held shared handles with a front offset; capacity-128 and capacity-1024 buffers where size-relative policies and the original-capacity classes are active), "
+            "(0,1,len-1,len,cap-1,cap,alloc-len, +1 variants, usize::MAX / isize::MAX class) on every live handle, from each of 26 roots (all representations, payload 0/1/4; uniquely held shared handles with a front offset; capacity-128 and capacity-1024 buffers where size-relative policies and the original-capacity classes are active), "
             "<= 3 handles, second root allowed; after every transition all oracles run and a drop-all epilogue checks the ledger. distinct_nontrivial = transitions that changed the canonical state")
 
 
@@ -230,7 +230,8 @@ def plan_c18(tier):
         ws.append(R(["--set", "small", "--cap", cap, "--k", "0", "--roundtrip", "--unsplit", "--periodic", "3"]))
         ws.append(R(["--set", "small", "--cap", cap, "--k", "0", "--roundtrip", "--unsplit", "--periodic", "3"], par="odd"))
         ws.append(R(["--set", "small", "--cap", cap, "--k", "0", "--appends", "--roundtrip", "--unsplit", "--periodic", "2"]))
-        ws.append(R(["--set", "small", "--cap", cap, "--k", "1", "--appends", "--periodic", "2", "--periodic-only"], par="odd"))
+        ws.append(R(["--set", "small", "--cap", cap, "--k", "1", "--appends", "--splits", "--periodic", "2", "--periodic-only"], par="odd"))
+        ws.append(R(["--set", "small", "--cap", cap, "--k", "0", "--appends", "--splits", "--roundtrip", "--periodic", "2", "--periodic-only"]))
         ws.append(R(["--set", "small", "--cap", cap, "--k", "1"]))
         ws.append(R(["--set", "small", "--cap", cap, "--k", "1", "--roundtrip"], par="odd"))
         ws.append(R(["--set", "small", "--cap", cap, "--k", "1", "--periodic", "3", "--periodic-only"]))
@@ -239,7 +240,7 @@ def plan_c18(tier):
     for st in ["t1k", "t2k", "t64k"]:
         ws.append(R(["--set", st, "--k", "0", "--roundtrip", "--unsplit", "--periodic", "2", "--rounds", "40", "--periodic-only"]))
         ws.append(R(["--set", st, "--k", "1", "--periodic", "2", "--rounds", "40", "--periodic-only"]))
-        ws.append(R(["--set", st, "--k", "0", "--appends", "--periodic", "2", "--rounds", "40", "--periodic-only"]))
+        ws.append(R(["--set", st, "--k", "0", "--appends", "--splits", "--periodic", "2", "--rounds", "40", "--periodic-only"]))
     if tier == "thorough":
         ws.append(R(["--set", "small", "--k", "2", "--max-states", "3000000", "--max-seconds", "3000"]))
         ws.append(R(["--set", "small", "--k", "1", "--unsplit", "--max-states", "3000000", "--max-seconds", "3000"]))
@@ -296,9 +297,9 @@ PLANS = {
     "C01": plan_hmc("C01", [], [], "after every step every live handle's bytes, len, Buf::remaining/chunk equal an independent Vec<u8> model with globally unique payload bytes; Vec::from results compared", with_loom=True),
     "C02": plan_hmc("C02", ["--oom-probes"], ["--oom-probes"], "allocator ledger (unknown/interior/double/wrong-layout frees), canaries and poison verified after every step, containment of every non-empty handle in one live block or registered region, process status (crash handler), fork-isolated allocatable-but-huge requests", profiles_quick=("rel", "dbg"), with_loom=True, with_miri=True),
     "C03": plan_hmc("C03", ["--perms"], ["--perms"], "drop-all epilogue after every transition and in every permutation at every new canonical state: no crate-attributed block live, no double free; instrumented owner: as_ref once, dropped exactly once, not before the last view, also when as_ref panics", with_loom=True),
-    "C04": plan_hmc("C04", [], [], "BytesMut capacity regions pairwise disjoint, disjoint from visible Bytes, inside one live block; fill-spare writes invisible elsewhere; reserve/try_reclaim promises incl. unrepresentable sizes", profiles_quick=("rel", "dbg")),
+    "C04": plan_hmc("C04", [], [], "BytesMut capacity regions pairwise disjoint, disjoint from visible Bytes, inside one live block; fill-spare writes invisible elsewhere; reserve/try_reclaim promises incl. unrepresentable sizes", profiles_quick=("rel", "dbg"), with_loom=True),
     "C07": plan_hmc("C07", [], [], "per transition: listed sharing operations allocate no align-1 block and every resulting non-empty handle (for split_off/split_to also empty ones) starts at source address + logical offset", with_loom=True),
-    "C08": plan_hmc("C08", ["--probes"], ["--probes"], "is_unique() evaluated on every live Bytes in every state against physical sharing (allocator map) and a conservative lineage relation; try_into_mut Ok iff unique, same address; sole-owner probes: try_reclaim(n) true for n in {0,1,T-1,T} and reserve(n) without allocator events"),
+    "C08": plan_hmc("C08", ["--probes"], ["--probes"], "is_unique() evaluated on every live Bytes in every state against physical sharing (allocator map) and a conservative lineage relation; try_into_mut Ok iff unique, same address; sole-owner probes: try_reclaim(n) true for n in {0,1,T-1,T} and reserve(n) without allocator events", with_loom=True),
     "C13": plan_hmc("C13", [], [], "every out-of-contract action at every reachable state must panic (or be the documented no-op) and leave ptr/len/cap/bytes of every handle unchanged; exploration continues and the epilogue checks release", profiles_quick=("rel", "dbg")),
     "C09": plan_c09,
     "C10": plan_c10,
